@@ -94,6 +94,11 @@ def explore(ctx, rep, cases, label):
     return bad or fails
 
 
+def fails_of(c, o):
+    ex, errs = L.derive(c, o)
+    return [x for d in ex for x in L.oracle_c06(c, d, ex)]
+
+
 def run(ctx):
     rep = C.Report(ctx, META)
     rep.add_obligations(C.proof_obligations("C06"))
@@ -101,11 +106,12 @@ def run(ctx):
     if corpus:
         explore(ctx, rep, corpus, "corpus")
     r = ctx.sub_rng("gen")
-    cases = [L.gen_case(r) for _ in range(ctx.n(700, 30000))]
+    cases = [L.gen_case(r) for _ in range(ctx.n(1200, 40000))]
     broken = explore(ctx, rep, cases, "main")
     if (broken or any(not o["ok"] for o in rep.obligations)) and not rep.failures:
         r2 = ctx.sub_rng("search")
         explore(ctx, rep, [L.gen_case(r2) for _ in range(ctx.n(3000, 30000))], "search")
+    L.shrink_failures(ctx, rep, fails_of)
     return rep.finish()
 
 
